@@ -159,6 +159,28 @@ def prefixed_modrm_cases(isa, spec, tier):
         for (mod, rm) in forms:
             w = fs.fix | (mod << Mod.lo) | (rm << RM.lo)
             yield p + w.to_bytes(nb, "little") + b"\x24" + INC[:12]
+    # address-size override: the other ModRM table (16-bit forms in 32-bit mode, 32-bit forms in 64-bit mode), whose
+    # displacement-only and SIB classes sit at other r/m values (mod=00 r/m=110 is [disp16], r/m=100/101 are [si]/[di])
+    for p in ([b"\x67", b"\x66\x67"] if full else [b"\x67"]):
+        for mod in (0, 1, 2):
+            for rm in (range(8) if full else (0, 4, 5, 6)):
+                w = fs.fix | (mod << Mod.lo) | (rm << RM.lo)
+                yield p + w.to_bytes(nb, "little") + b"\x25" + INC[:12]
+
+
+def adrsize_cases(isa, spec, tier):
+    """x86/x64: 67 (and 66 67) before every variable-length spec without ModRM (moffs forms, string and jump forms): the
+    number of bytes consumed depends on the address size"""
+    if isa not in ("x86", "x64"):
+        return
+    fs = fmtlang.parse(spec.format)
+    if not fs.variable or modrm_fields(fs):
+        return
+    nb = fs.nbits // 8
+    hb = fs.fix.to_bytes(nb, "little")
+    for p in ([b"\x67", b"\x66\x67", b"\x67\x48"] if tier == "thorough" else [b"\x67"]):
+        yield p + hb + INC[:12]
+        yield p + hb + b"\xff" * 12
 
 
 def sweep16():
